@@ -6,7 +6,8 @@
      1 projection fast path      2 SELECT * over a join        3 expression item over a join
      4 push past invisible refs  5 join condition lost after a push to the right input
      6 WHERE under an outer join 7 RIGHT / FULL unmatched rows projected by name
-     8 ON residual dropped by the hash join                    9 join nested in a join *)
+     8 ON residual dropped by the hash join                    9 join nested in a join
+     10 hash join keys -0.0 / 0.0 *)
 From Coq Require Import ZArith List Bool.
 From TV Require Import Model.SqlSpec Model.QuerySpec Model.ConstFold Model.Pushdown.
 Import ListNotations.
@@ -103,6 +104,25 @@ Definition on_residual (wl : nat) (cond : expr) : bool :=
   | _ => Nat.ltb (length keys) (length conj) || existsb (fun ij => negb (two_sided wl ij)) keys
   end.
 
+(* hash joins hash the bit pattern of a key: -0.0 and 0.0 (or the integer 0) compare equal but
+   land in different buckets.  Class 10: a two-sided key pair whose two columns hold both kinds
+   of zero. *)
+Definition zero_kind (v : value) : Z :=
+  match v with
+  | VFloat b => if b =? 2 ^ 63 then 2 else if b =? 0 then 1 else 0
+  | VInt z => if z =? 0 then 1 else 0
+  | _ => 0
+  end.
+Definition col_has (t : table) (c : nat) (k : Z) : bool :=
+  existsb (fun r => match nth_error r c with Some v => zero_kind v =? k | None => false end) t.
+Definition neg_zero_key (wl : nat) (L R : table) (cond : expr) : bool :=
+  existsb (fun ij =>
+             let a := if Nat.ltb (fst ij) wl then fst ij else snd ij in
+             let b := ((if Nat.ltb (fst ij) wl then snd ij else fst ij) - wl)%nat in
+             two_sided wl ij &&
+             ((col_has L a 2 && col_has R b 1) || (col_has L a 1 && col_has R b 2)))
+          (flat_map (fun c => match col_col_eq c with Some ij => [ij] | None => [] end) (flatten_and cond)).
+
 Definition join2_class (d : db) (q : query) (k : jkind) (l r : from) (on : expr) : Z :=
   let wl := from_width d l in
   let wr := from_width d r in
@@ -130,8 +150,9 @@ Definition join2_class (d : db) (q : query) (k : jkind) (l r : from) (on : expr)
                      | _ => false
                      end in
   let residual := match cond with Some c => on_residual wl c | None => false end in
+  let negzero := match cond with Some c => neg_zero_key wl (eval_from d l) (eval_from d r) c | None => false end in
   if blind then 4 else if right_cond then 5 else if outer_where then 6 else if right_names then 7
-  else if residual then 8 else 0.
+  else if residual then 8 else if negzero then 10 else 0.
 
 Definition q_class (d : db) (q : query) : Z :=
   match q_from q with
